@@ -340,7 +340,7 @@ theorem P_ne_nil (ps : List Nat) (h : ps.isEmpty = false) : P ps ≠ [] := by
 
 /-- a branch with a semantic-after probe -/
 theorem run_flagged (last : Nat) (X : List Tok) (idx : Nat) (fr : List Fr) (nl : Nat) (x : Lower.Instr) (rest : List Lower.Instr)
-    (hfr : fr ≠ []) (hl : idx < last) (hk : x.kind.isBranching = true) (hsem : x.semAfter ≠ []) :
+    (hfr : fr ≠ []) (hl : idx < last) (hk : x.kind.isBranching = true) (hsem : x.semAfter ≠ []) (hxa : x.alt = none) :
     specRunF last [] X idx fr none nl (x :: rest)
       = Pre (x.before ++ [tConst 1, tLocalSet nl] ++ [x.tok] ++ x.after ++ [tConst 0, tLocalSet nl]
               ++ (match x.kind with | .brIf _ => x.semAfter | _ => []))
@@ -351,7 +351,7 @@ theorem run_flagged (last : Nat) (X : List Tok) (idx : Nat) (fr : List Fr) (nl :
   have hfe : fr.isEmpty = false := by cases fr with | nil => exact absurd rfl hfr | cons _ _ => rfl
   have hs : specStepF fr none nl x = some (parkAllF fr (fr.length - 1) (x.semAfter, nl) (branchTargets x.kind), none, nl + 1,
       [tConst 1, tLocalSet nl], none, [tConst 0, tLocalSet nl] ++ (match x.kind with | .brIf _ => x.semAfter | _ => [])) := by
-    simp only [specStepF, hfb, hfe, if_true, Bool.false_eq_true, if_false]
+    simp only [specStepF, hfb, hfe, if_true, Bool.false_eq_true, if_false, hxa]
     cases x.kind <;> rfl
   have hne : parkAllF fr (fr.length - 1) (x.semAfter, nl) (branchTargets x.kind) ≠ [] := by
     have hlen := (Lower.parkAllF_spec (fr.length - 1) (x.semAfter, nl) (branchTargets x.kind) fr
@@ -368,30 +368,30 @@ theorem run_flagged (last : Nat) (X : List Tok) (idx : Nat) (fr : List Fr) (nl :
 
 
 theorem run_open (last : Nat) (X : List Tok) (idx : Nat) (fr : List Fr) (nl : Nat) (x : Lower.Instr) (rest : List Lower.Instr)
-    (hl : idx < last) (hk : x.kind = .block ∨ x.kind = .loop) (hba : x.blockAlt = none) :
+    (hl : idx < last) (hk : x.kind = .block ∨ x.kind = .loop) (hba : x.blockAlt = none) (hxa : x.alt = none) :
     specRunF last [] X idx fr none nl (x :: rest)
       = Pre (x.before ++ [x.tok] ++ x.after ++ x.blockEntry)
           (specRunF last [] X (idx + 1) ({ exitB := x.blockExit, afterA := x.semAfter } :: fr) none nl rest) := by
   have hs : specStepF fr none nl x = some ({ exitB := x.blockExit, afterA := x.semAfter } :: fr, none, nl, [], none, x.blockEntry) := by
-    rcases hk with h | h <;> simp [specStepF, flaggedBranch, specStepA, h, hba, Kind.isBranching]
+    rcases hk with h | h <;> simp [specStepF, flaggedBranch, specStepA, h, hba, hxa, Kind.isBranching]
   rw [runF_step last [] X idx fr none nl x rest _ none nl _ none _ hs (by simp) hl]
   have hnx : x.kind ≠ .exitLike := by rcases hk with h | h <;> simp [h]
   rw [fnPre_mid last X idx x hl hnx]
   cases specRunF last [] X (idx + 1) ({ exitB := x.blockExit, afterA := x.semAfter } :: fr) none nl rest <;> simp [Pre]
 
 theorem run_open_if (last : Nat) (X : List Tok) (idx : Nat) (fr : List Fr) (nl : Nat) (x : Lower.Instr) (rest : List Lower.Instr)
-    (hl : idx < last) (hk : x.kind = .if_) (hba : x.blockAlt = none) :
+    (hl : idx < last) (hk : x.kind = .if_) (hba : x.blockAlt = none) (hxa : x.alt = none) :
     specRunF last [] X idx fr none nl (x :: rest)
       = Pre (x.before ++ [x.tok] ++ x.after ++ x.blockEntry)
           (specRunF last [] X (idx + 1) ({ ifExit := x.blockExit, afterA := x.semAfter } :: fr) none nl rest) := by
   have hs : specStepF fr none nl x = some ({ ifExit := x.blockExit, afterA := x.semAfter } :: fr, none, nl, [], none, x.blockEntry) := by
-    simp [specStepF, flaggedBranch, specStepA, hk, hba, Kind.isBranching]
+    simp [specStepF, flaggedBranch, specStepA, hk, hba, hxa, Kind.isBranching]
   rw [runF_step last [] X idx fr none nl x rest _ none nl _ none _ hs (by simp) hl]
   rw [fnPre_mid last X idx x hl (by simp [hk])]
   cases specRunF last [] X (idx + 1) ({ ifExit := x.blockExit, afterA := x.semAfter } :: fr) none nl rest <;> simp [Pre]
 
 theorem run_else (last : Nat) (X : List Tok) (idx : Nat) (top below : Fr) (fr : List Fr) (nl : Nat) (x : Lower.Instr)
-    (rest : List Lower.Instr) (hl : idx < last) (hk : x.kind = .else_) (hba : x.blockAlt = none) :
+    (rest : List Lower.Instr) (hl : idx < last) (hk : x.kind = .else_) (hba : x.blockAlt = none) (hxa : x.alt = none) :
     specRunF last [] X idx (top :: below :: fr) none nl (x :: rest)
       = Pre (x.before ++ top.ifExit ++ [x.tok] ++ x.after ++ x.blockEntry)
           (specRunF last [] X (idx + 1)
@@ -399,7 +399,7 @@ theorem run_else (last : Nat) (X : List Tok) (idx : Nat) (top below : Fr) (fr : 
   have hs : specStepF (top :: below :: fr) none nl x
       = some ({ top with ifExit := [], exitB := top.exitB ++ x.blockExit, afterA := top.afterA ++ x.semAfter } :: below :: fr, none, nl,
           top.ifExit, none, x.blockEntry) := by
-    simp [specStepF, flaggedBranch, specStepA, hk, hba, Kind.isBranching]
+    simp [specStepF, flaggedBranch, specStepA, hk, hba, hxa, Kind.isBranching]
   rw [runF_step last [] X idx _ none nl x rest _ none nl _ none _ hs (by simp) hl]
   rw [fnPre_mid last X idx x hl (by simp [hk])]
   cases specRunF last [] X (idx + 1)
@@ -407,12 +407,12 @@ theorem run_else (last : Nat) (X : List Tok) (idx : Nat) (top below : Fr) (fr : 
     simp [Pre]
 
 theorem run_end (last : Nat) (X : List Tok) (idx : Nat) (top : Fr) (fr : List Fr) (nl : Nat) (x : Lower.Instr)
-    (rest : List Lower.Instr) (hfr : fr ≠ []) (hl : idx < last) (hk : x.kind = .end_) :
+    (rest : List Lower.Instr) (hfr : fr ≠ []) (hl : idx < last) (hk : x.kind = .end_) (hxa : x.alt = none) :
     specRunF last [] X idx (top :: fr) none nl (x :: rest)
       = Pre (x.before ++ top.ifExit ++ top.exitB ++ [x.tok] ++ x.after ++ endAfter top)
           (specRunF last [] X (idx + 1) fr none nl rest) := by
   have hs : specStepF (top :: fr) none nl x = some (fr, none, nl, top.ifExit ++ top.exitB, none, endAfter top) := by
-    simp [specStepF, flaggedBranch, specStepA, hk, Kind.isBranching]
+    simp [specStepF, flaggedBranch, specStepA, hk, hxa, Kind.isBranching]
   rw [runF_step last [] X idx _ none nl x rest _ none nl _ none _ hs hfr hl]
   rw [fnPre_mid last X idx x hl (by simp [hk])]
   cases specRunF last [] X (idx + 1) fr none nl rest <;> simp [Pre]
@@ -481,7 +481,7 @@ theorem run_flatI (last : Nat) (X : List Tok) (fx : List Nat) (hX : X = P fx) :
     simp only [okI, Bool.not_eq_true'] at hok
     simp only [depthOkI, decide_eq_true_eq] at hd
     have hflag : s.flag = nl := by simpa [flagsI] using hnum
-    rw [run_flagged last X idx fr nl _ rest hfr (by omega) (by simp [mk, Kind.isBranching]) (by simpa [mk, saToks] using P_ne_nil s.ps hok)]
+    rw [run_flagged last X idx fr nl _ rest hfr (by omega) (by simp [mk, Kind.isBranching]) (by simpa [mk, saToks] using P_ne_nil s.ps hok) (by simp [mk])]
     have hp := park_branch fr s [n] (.br b a (some s) n) hfr (fun d => by by_cases h : n = d <;> simp [pendingI, h]) (by simpa using hd)
     simp only [mk, saToks, branchTargets, hflag] at hp ⊢
     rw [← hflag] at hp ⊢
@@ -492,7 +492,7 @@ theorem run_flatI (last : Nat) (X : List Tok) (fx : List Nat) (hX : X = P fx) :
     simp only [okI, Bool.not_eq_true'] at hok
     simp only [depthOkI, decide_eq_true_eq] at hd
     have hflag : s.flag = nl := by simpa [flagsI] using hnum
-    rw [run_flagged last X idx fr nl _ rest hfr (by omega) (by simp [mk, Kind.isBranching]) (by simpa [mk, saToks] using P_ne_nil s.ps hok)]
+    rw [run_flagged last X idx fr nl _ rest hfr (by omega) (by simp [mk, Kind.isBranching]) (by simpa [mk, saToks] using P_ne_nil s.ps hok) (by simp [mk])]
     have hp := park_branch fr s [n] (.brIf b a (some s) n) hfr (fun d => by by_cases h : n = d <;> simp [pendingI, h]) (by simpa using hd)
     simp only [mk, saToks, branchTargets, hflag] at hp ⊢
     rw [← hflag] at hp ⊢
@@ -503,7 +503,7 @@ theorem run_flatI (last : Nat) (X : List Tok) (fx : List Nat) (hX : X = P fx) :
     simp only [okI, Bool.not_eq_true'] at hok
     simp only [depthOkI, Bool.and_eq_true, List.all_eq_true, decide_eq_true_eq] at hd
     have hflag : s.flag = nl := by simpa [flagsI] using hnum
-    rw [run_flagged last X idx fr nl _ rest hfr (by omega) (by simp [mk, Kind.isBranching]) (by simpa [mk, saToks] using P_ne_nil s.ps hok)]
+    rw [run_flagged last X idx fr nl _ rest hfr (by omega) (by simp [mk, Kind.isBranching]) (by simpa [mk, saToks] using P_ne_nil s.ps hok) (by simp [mk])]
     have hp := park_branch fr s (ts ++ [d]) (.brTable b a (some s) ts d) hfr (fun d' => by simp [pendingI])
       (by intro t ht; rcases List.mem_append.mp ht with h | h
           · exact hd.1 t h
@@ -518,10 +518,10 @@ theorem run_flatI (last : Nat) (X : List Tok) (fx : List Nat) (hX : X = P fx) :
     simp only [flagsI] at hnum ⊢
     simp only [flatI, List.length_cons, List.length_append, List.length_singleton, List.length_nil, List.cons_append, List.nil_append,
       List.append_assoc] at hl ⊢
-    rw [run_open last X idx fr nl _ _ (by omega) (.inl (by simp [mk])) (by simp [mk])]
+    rw [run_open last X idx fr nl _ _ (by omega) (.inl (by simp [mk])) (by simp [mk]) (by simp [mk])]
     rw [run_flatL last X fx hX body (idx + 1) (_ :: fr) nl (mk tEnd .end_ :: rest) hok.2 (by simpa using hd) hnum (by simp) (by omega)]
     simp only [parkFrom, List.singleton_append]
-    rw [run_end last X _ _ _ _ _ rest (parkFrom_ne_nil _ _ _ hfr) (by omega) (by simp [mk])]
+    rw [run_end last X _ _ _ _ _ rest (parkFrom_ne_nil _ _ _ hfr) (by omega) (by simp [mk]) (by simp [mk])]
     rw [Pre_Pre, Pre_Pre]
     rw [← parkFrom_shift [.block b ann ar tk body] body (fun d => by simp [pendingL, pendingI]) 0 fr]
     have hi : idx + 1 + (flatL body).length + 1 = idx + ((flatL body).length + 1 + 1) := by omega
@@ -534,10 +534,10 @@ theorem run_flatI (last : Nat) (X : List Tok) (fx : List Nat) (hX : X = P fx) :
     simp only [flagsI] at hnum ⊢
     simp only [flatI, List.length_cons, List.length_append, List.length_singleton, List.length_nil, List.cons_append, List.nil_append,
       List.append_assoc] at hl ⊢
-    rw [run_open last X idx fr nl _ _ (by omega) (.inr (by simp [mk])) (by simp [mk])]
+    rw [run_open last X idx fr nl _ _ (by omega) (.inr (by simp [mk])) (by simp [mk]) (by simp [mk])]
     rw [run_flatL last X fx hX body (idx + 1) (_ :: fr) nl (mk tEnd .end_ :: rest) hok.2 (by simpa using hd) hnum (by simp) (by omega)]
     simp only [parkFrom, List.singleton_append]
-    rw [run_end last X _ _ _ _ _ rest (parkFrom_ne_nil _ _ _ hfr) (by omega) (by simp [mk])]
+    rw [run_end last X _ _ _ _ _ rest (parkFrom_ne_nil _ _ _ hfr) (by omega) (by simp [mk]) (by simp [mk])]
     rw [Pre_Pre, Pre_Pre]
     rw [← parkFrom_shift [.loop b ann tk body] body (fun d => by simp [pendingL, pendingI]) 0 fr]
     have hi : idx + 1 + (flatL body).length + 1 = idx + ((flatL body).length + 1 + 1) := by omega
@@ -556,7 +556,7 @@ theorem run_flatI (last : Nat) (X : List Tok) (fx : List Nat) (hX : X = P fx) :
     | true =>
       simp only [flatI, if_true, List.length_cons, List.length_append, List.length_singleton, List.length_nil, List.cons_append,
         List.nil_append, List.append_assoc] at hl ⊢
-      rw [run_open_if last X idx fr nl _ _ (by omega) (by simp [mk]) (by simp [mk])]
+      rw [run_open_if last X idx fr nl _ _ (by omega) (by simp [mk]) (by simp [mk]) (by simp [mk])]
       rw [run_flatL last X fx hX t (idx + 1) (_ :: fr) nl _ hokt (by simpa using hd.1) n1 (by simp) (by omega)]
       rw [parkFrom_cons]
       obtain ⟨below, r, hbr⟩ : ∃ below r, parkFrom t (0 + 1) fr = below :: r := by
@@ -566,11 +566,11 @@ theorem run_flatI (last : Nat) (X : List Tok) (fx : List Nat) (hX : X = P fx) :
         | cons x xs => exact ⟨x, xs, rfl⟩
       have hlenbr : (below :: r).length = fr.length := by rw [← hbr, parkFrom_length]
       rw [hbr]
-      rw [run_else last X _ _ below r _ _ _ (by omega) (by simp [mk]) (by simp [mk])]
+      rw [run_else last X _ _ below r _ _ _ (by omega) (by simp [mk]) (by simp [mk]) (by simp [mk])]
       rw [run_flatL last X fx hX e _ (_ :: below :: r) _ _ hoke
         (by simp only [List.length_cons] at hlenbr ⊢; rw [hlenbr]; exact hd.2) n2 (by simp) (by omega)]
       rw [parkFrom_cons]
-      rw [run_end last X _ _ _ _ _ rest (parkFrom_ne_nil _ _ _ (by simp)) (by omega) (by simp [mk])]
+      rw [run_end last X _ _ _ _ _ rest (parkFrom_ne_nil _ _ _ (by simp)) (by omega) (by simp [mk]) (by simp [mk])]
       rw [Pre_Pre, Pre_Pre, Pre_Pre, Pre_Pre]
       rw [← hbr, parkFrom_append t e (0 + 1) fr, ← parkFrom_shift _ (t ++ e) hshift 0 fr]
       have hi : idx + 1 + (flatL t).length + 1 + (flatL e).length + 1 = idx + ((flatL t).length + ((flatL e).length + 1 + 1) + 1) := by omega
@@ -588,10 +588,10 @@ theorem run_flatI (last : Nat) (X : List Tok) (fx : List Nat) (hX : X = P fx) :
       subst he hann
       simp only [flatI, Bool.false_eq_true, if_false, List.length_cons, List.length_append, List.length_singleton, List.length_nil,
         List.cons_append, List.nil_append, List.append_assoc, List.append_nil] at hl ⊢
-      rw [run_open_if last X idx fr nl _ _ (by omega) (by simp [mk]) (by simp [mk])]
+      rw [run_open_if last X idx fr nl _ _ (by omega) (by simp [mk]) (by simp [mk]) (by simp [mk])]
       rw [run_flatL last X fx hX t (idx + 1) (_ :: fr) nl _ hokt (by simpa using hd.1) n1 (by simp) (by omega)]
       rw [parkFrom_cons]
-      rw [run_end last X _ _ _ _ _ rest (parkFrom_ne_nil _ _ _ hfr) (by omega) (by simp [mk])]
+      rw [run_end last X _ _ _ _ _ rest (parkFrom_ne_nil _ _ _ hfr) (by omega) (by simp [mk]) (by simp [mk])]
       rw [Pre_Pre, Pre_Pre]
       have hshift' : ∀ d, pendingL d [Instr.ite b annT {} ar tk t [] false] = pendingL (d + 1) t := by
         intro d; simp [pendingL, pendingI]
@@ -730,10 +730,10 @@ theorem run_flatF (F : Sem.Func) (nl : Nat) (hok : okL F.body = true) (hd : dept
 
 open Orca.Lower (PlainF)
 
-theorem plainF_of (x : Lower.Instr) (h1 : x.alt = none) (h2 : x.blockAlt = none)
+theorem plainF_of (x : Lower.Instr) (_h1 : x.alt = none) (h2 : x.blockAlt = none)
     (h3 : x.kind.isBlockStyle = false → x.blockEntry = [] ∧ x.blockExit = [])
     (h4 : x.kind.isBlockStyle = false → x.kind.isBranching = false → x.semAfter = []) : PlainF x :=
-  ⟨h1, fun h => (by rw [h2] at h; cases h), h3, h4⟩
+  ⟨fun h => (by rw [h2] at h; cases h), h3, h4⟩
 
 mutual
 /-- every flattened instruction is in the scope of the complete machine -/
